@@ -210,7 +210,10 @@ Proof.
 Qed.
 
 Lemma guard_deref : forall rx e es, guard (deref rx (e :: es)) = true.
-Proof. intros rx e es. unfold deref. simpl guard. rewrite guard_loop1. reflexivity. Qed.
+Proof.
+  intros rx e es. unfold deref. pose proof (guard_loop1 rx e es) as H.
+  remember (seqs (map (entry_prog rx) (e :: es))) as l1. simpl. rewrite H. reflexivity.
+Qed.
 
 Definition tail_prog (s : shape) : prog :=
   Seq (pollsN (s_enc s)) (Seq (seqs (map ostream_prog (s_ostreams s))) (deref (s_relaxed s) (s_entries s))).
@@ -227,7 +230,8 @@ Qed.
 Lemma guard_tail : forall s, s_entries s <> [] -> guard (tail_prog s) = true.
 Proof.
   intros s Hne. unfold tail_prog. destruct (s_entries s) as [|e es]; [congruence|].
-  simpl guard. rewrite guard_deref. rewrite !orb_true_r. reflexivity.
+  pose proof (guard_deref (s_relaxed s) e es) as H.
+  remember (deref (s_relaxed s) (e :: es)) as d. simpl. rewrite H. rewrite !orb_true_r. reflexivity.
 Qed.
 
 Lemma read_prog_eq : forall s,
@@ -284,12 +288,28 @@ Proof.
 Qed.
 Lemma failfree_pollsN : forall n, failfree (pollsN n) = true.
 Proof. intro n. apply failfree_seqs. intros p Hp. apply repeat_spec in Hp. subst. reflexivity. Qed.
+Lemma ff_seq : forall p q, failfree p = true -> failfree q = true -> failfree (Seq p q) = true.
+Proof. intros p q Hp Hq. simpl. rewrite Hp, Hq. reflexivity. Qed.
+Lemma ff_try : forall p q r, failfree p = true -> failfree q = true -> failfree r = true ->
+  failfree (Try p q r) = true.
+Proof. intros p q r Hp Hq Hr. simpl. rewrite Hp, Hq, Hr. reflexivity. Qed.
+Lemma ff_retry : forall p q, failfree p = true -> failfree q = true -> failfree (Retry p q) = true.
+Proof. intros p q Hp Hq. simpl. rewrite Hp, Hq. reflexivity. Qed.
+
 Lemma failfree_pal : forall o, failfree (parse_and_load o) = true.
-Proof. intro o. unfold parse_and_load, parse_obj, buffer_polls. simpl. rewrite !failfree_pollsN. reflexivity. Qed.
+Proof.
+  intro o. unfold parse_and_load, parse_obj, buffer_polls.
+  apply ff_seq; [|apply failfree_pollsN]. apply ff_seq.
+  - apply ff_seq; [reflexivity|apply failfree_pollsN].
+  - apply ff_retry; apply failfree_pollsN.
+Qed.
 Lemma failfree_process_object : forall rx o, failfree (process_object rx o) = true.
 Proof.
   intros rx o. unfold process_object. destruct rx; [|apply failfree_pal].
-  unfold buffer_polls, Swallow. destruct (obig o); simpl; rewrite !failfree_pollsN; reflexivity.
+  assert (Hr : failfree (Seq (Retry (pollsN (ok_ o)) (pollsN (ok_ o))) (pollsN (op o))) = true).
+  { apply ff_seq; [apply ff_retry; apply failfree_pollsN|apply failfree_pollsN]. }
+  apply ff_try; [unfold buffer_polls; apply ff_seq; [reflexivity|apply failfree_pollsN]|reflexivity|].
+  destruct (obig o); [exact Hr|]. unfold Swallow. apply ff_try; [exact Hr|reflexivity|reflexivity].
 Qed.
 Lemma failfree_bypass : forall rx f, failfree (bypass rx f) = true.
 Proof.
@@ -301,30 +321,38 @@ Qed.
 Lemma failfree_chain : forall rx f l, failfree (chain rx f l) = true.
 Proof.
   intros rx f l. induction l as [|x l IH]; [reflexivity|].
-  destruct x as [k|o]; simpl; rewrite IH.
-  - rewrite failfree_pollsN. reflexivity.
-  - rewrite failfree_bypass. change (failfree (parse_and_load o) && true && true = true).
-    rewrite failfree_pal. reflexivity.
+  destruct x as [k|o].
+  - change (chain rx f (STable k :: l))
+      with (Seq Poll (Seq (Retry (pollsN k) (pollsN k)) (chain rx f l))).
+    apply ff_seq; [reflexivity|]. apply ff_seq; [|exact IH].
+    apply ff_retry; apply failfree_pollsN.
+  - change (chain rx f (SStream o :: l))
+      with (Seq Poll (Try (parse_and_load o) (bypass rx f) (chain rx f l))).
+    apply ff_seq; [reflexivity|]. apply ff_try; [apply failfree_pal|apply failfree_bypass|exact IH].
 Qed.
 Lemma failfree_tail : forall s, failfree (tail_prog s) = true.
 Proof.
-  intro s. unfold tail_prog, deref. simpl. rewrite failfree_pollsN. simpl.
-  rewrite !failfree_seqs; try reflexivity.
-  - intros p Hp. apply in_map_iff in Hp. destruct Hp as [e [He _]]. subst p. destruct e; reflexivity.
-  - intros p Hp. apply in_map_iff in Hp. destruct Hp as [e [He _]]. subst p.
-    destruct e as [| |o]; try reflexivity. simpl.
-    destruct (s_relaxed s).
-    + unfold parse_obj, buffer_polls. simpl. rewrite !failfree_pollsN. reflexivity.
+  intro s. unfold tail_prog, deref.
+  apply ff_seq; [apply failfree_pollsN|]. apply ff_seq; [|apply ff_seq].
+  - apply failfree_seqs. intros p Hp. apply in_map_iff in Hp. destruct Hp as [x [Hx _]]. subst p.
+    unfold ostream_prog. apply ff_seq; [reflexivity|].
+    apply ff_seq; [apply failfree_pal|apply failfree_pollsN].
+  - apply failfree_seqs. intros p Hp. apply in_map_iff in Hp. destruct Hp as [e [He _]]. subst p.
+    destruct e as [| |o]; try reflexivity. unfold entry_prog.
+    apply ff_seq; [reflexivity|]. destruct (s_relaxed s).
+    + apply ff_try; [|reflexivity|apply failfree_pollsN].
+      unfold parse_obj, buffer_polls. apply ff_seq.
+      * apply ff_seq; [reflexivity|apply failfree_pollsN].
+      * apply ff_retry; apply failfree_pollsN.
     + apply failfree_pal.
-  - intros p Hp. apply in_map_iff in Hp. destruct Hp as [x [Hx _]]. subst p.
-    unfold ostream_prog. simpl. rewrite failfree_pollsN.
-    change (failfree (parse_and_load (os_obj x)) && true = true). rewrite failfree_pal. reflexivity.
+  - apply failfree_seqs. intros p Hp. apply in_map_iff in Hp. destruct Hp as [e [He _]]. subst p.
+    destruct e; reflexivity.
 Qed.
 
 Lemma failfree_read : forall s, s_prefail s = false -> failfree (read_prog s) = true.
 Proof.
-  intros s Hp. rewrite read_prog_eq. rewrite Hp. simpl.
-  rewrite failfree_chain, failfree_tail. reflexivity.
+  intros s Hp. rewrite read_prog_eq. rewrite Hp.
+  apply ff_seq; [reflexivity|]. apply ff_seq; [apply failfree_chain|apply failfree_tail].
 Qed.
 
 (* ---- the late-poll bound outside the defect class ---- *)
@@ -397,16 +425,91 @@ Qed.
 Definition bad_shape (n : nat) : shape :=
   mkshape true false [SStream o1] (repeat (FObj o1) n) 0 [] [EFree].
 
+Lemma run_Seq : forall poll p q s, run poll (Seq p q) s =
+  let (o, s1) := run poll p s in if is_done o then run poll q s1 else (o, s1).
+Proof. reflexivity. Qed.
+Lemma run_Try : forall poll p q r s, run poll (Try p q r) s =
+  let (o, s1) := run poll p s in if is_done o then run poll r s1 else run poll q s1.
+Proof. reflexivity. Qed.
+
+Lemma bad_pal : forall e a b, 1 <= a ->
+  run (flip_at (Some 1) e) (parse_and_load o1) (mkst a b) = (CtxErr e, mkst (a + 1) (b + 1)).
+Proof.
+  intros e a b Ha. simpl. assert (Hle : (1 <=? a) = true) by (apply N.leb_le; exact Ha).
+  rewrite Hle. reflexivity.
+Qed.
+
+Lemma bad_tail : forall e n a b, 1 <= a ->
+  run (flip_at (Some 1) e) (tail_prog (bad_shape n)) (mkst a b) = (CtxErr e, mkst (a + 1) (b + 1)).
+Proof.
+  intros e n a b Ha. simpl. assert (Hle : (1 <=? a) = true) by (apply N.leb_le; exact Ha).
+  rewrite Hle. reflexivity.
+Qed.
+
 Lemma bad_shape_late : forall e n,
   read (flip_at (Some 1) e) (bad_shape n) = (CtxErr e, mkst (N.of_nat n + 3) (N.of_nat n + 2)).
 Proof.
-  intros e n. unfold read, bad_shape, read_prog. simpl s_prefail. simpl s_relaxed. simpl s_file.
-  simpl s_sections. simpl s_enc. simpl s_ostreams. simpl s_entries.
-  change (chain true (repeat (FObj o1) n) [SStream o1])
+  intros e n. unfold read. rewrite read_prog_eq.
+  change (s_prefail (bad_shape n)) with false.
+  change (chain (s_relaxed (bad_shape n)) (s_file (bad_shape n)) (s_sections (bad_shape n)))
     with (Seq Poll (Try (parse_and_load o1) (bypass true (repeat (FObj o1) n)) Skip)).
-  remember (bypass true (repeat (FObj o1) n)) as byp.
-  simpl. subst byp. unfold tick_late, tick. simpl.
-  rewrite bypass_swallows; [|lia]. simpl.
-  assert (Hle : (1 <=? 2 + N.of_nat n) = true) by (apply N.leb_le; lia).
-  rewrite Hle. unfold tick_late. simpl. f_equal. f_equal; lia.
+  rewrite run_Seq. change (run (flip_at (Some 1) e) Skip st0) with (Done, st0).
+  cbv iota beta. change (is_done Done) with true. cbv iota.
+  rewrite run_Seq. rewrite run_Seq.
+  change (run (flip_at (Some 1) e) Poll st0) with (Done, mkst 1 0).
+  cbv iota beta. change (is_done Done) with true. cbv iota.
+  rewrite run_Try. rewrite bad_pal; [|lia].
+  cbv iota beta. change (is_done (CtxErr e)) with false. cbv iota.
+  rewrite bypass_swallows; [|lia].
+  cbv iota beta. change (is_done Done) with true. cbv iota.
+  rewrite bad_tail; [|lia]. f_equal. f_equal; lia.
+Qed.
+
+(* ---- the property-level statements ---- *)
+
+Lemma flip_at_mono : forall k e, mono (flip_at k e).
+Proof.
+  intros k e i j e' Hij H. unfold flip_at in *. destruct k as [k|]; [|discriminate].
+  destruct (k <=? i) eqn:E; [|discriminate]. apply N.leb_le in E.
+  assert (E' : (k <=? j) = true) by (apply N.leb_le; lia). rewrite E'. exact H.
+Qed.
+
+Lemma precancelled_fails : forall s poll e, s_sections s <> [] -> poll 0 = Some e ->
+  read poll s = if s_prefail s then (InErr, st0) else (CtxErr e, mkst 1 1).
+Proof.
+  intros s poll e Hne H0. unfold read. rewrite read_prog_eq.
+  destruct (s_prefail s); [reflexivity|].
+  destruct (s_sections s) as [|x l]; [congruence|].
+  destruct x as [k|o]; simpl; rewrite H0; reflexivity.
+Qed.
+
+Lemma cancel_any_time : forall s poll e, mono poll ->
+  (forall i e', poll i = Some e' -> e' = e) -> s_entries s <> [] ->
+  forall o st, read poll s = (o, st) ->
+  (o = Done /\ late st = 0) \/ o = CtxErr e \/ (o = InErr /\ s_prefail s = true).
+Proof.
+  intros s poll e Hm Hone Hne o st H. unfold read in H. destruct o as [|e'|].
+  - left. split; [reflexivity|].
+    apply (tight_sound poll (read_prog s) st0 st Hm (tight_read s Hne) H).
+  - right. left. destruct (ctxerr_from_poll poll _ _ _ _ H) as [i Hi].
+    rewrite (Hone i e' Hi). reflexivity.
+  - right. right. split; [reflexivity|].
+    destruct (s_prefail s) eqn:Ep; [reflexivity|]. exfalso.
+    apply (failfree_no_inerr poll (read_prog s) st0 InErr st (failfree_read s Ep) H). reflexivity.
+Qed.
+
+Lemma late_polls_bounded_partial : forall s poll, mono poll -> repair_swallows s = false ->
+  late (snd (read poll s)) <= stage_bound.
+Proof.
+  intros s poll Hm Hd. unfold read. destruct (run poll (read_prog s) st0) as [o st] eqn:E.
+  pose proof (late_bound_lbc poll (read_prog s) st0 o st Hm E) as H.
+  pose proof (read_lbc s Hd) as Hb. simpl in *. lia.
+Qed.
+
+Lemma late_polls_refuted : forall e n, exists s k,
+  repair_swallows s = true /\ mono (flip_at (Some k) e) /\
+  N.of_nat n < late (snd (read (flip_at (Some k) e) s)).
+Proof.
+  intros e n. exists (bad_shape n), 1. split; [reflexivity|]. split; [apply flip_at_mono|].
+  rewrite bad_shape_late. simpl. lia.
 Qed.
